@@ -410,7 +410,12 @@ def rule_R5_history(ctx, prj, thorough: bool):
         ptxt = "/".join(str(x) for x in path)
         scenarios.append((f"key {ptxt} missing", S1.with_file(S.DOC, json.dumps(CE.without(doc, path)))))
         old = get(doc, path)
-        for alt in (None, 7 if isinstance(old, str) else "x", {} if isinstance(old, list) else [], [] if isinstance(old, dict) else {}):
+        alts = [None, 7 if isinstance(old, str) else "x", {} if isinstance(old, list) else [], [] if isinstance(old, dict) else {}]
+        if isinstance(old, int) and not isinstance(old, bool):
+            # values of another JSON type that compare equal to integers (true == 1, 1.0 == 1): a reader that looks values up by
+            # equality (a memo, a set) must not take them for the integer
+            alts += [True, 1.0, float(old)]
+        for alt in alts:
             scenarios.append((f"value of {ptxt} replaced by {json.dumps(alt)}", S1.with_file(S.DOC, json.dumps(put(doc, path, alt)))))
     undec = S1.copy()
     undec.undecodable = {S.DOC}
